@@ -2,6 +2,7 @@ import NbioVerif.Lemmas.C09Stage2
 import NbioVerif.Lemmas.C09Bridge
 import NbioVerif.Lemmas.C09Rfc
 import NbioVerif.Lemmas.C09AutoLen
+import NbioVerif.Lemmas.C09Account
 /-! C09 HTTP response framing — property theorems over the model `Resp` (nbhttp/response.go). -/
 namespace Resp
 
@@ -603,6 +604,37 @@ theorem c09_identity_auto_length (g : Cfg) (hg : g.failAt = 0) (hreal : g.head =
       rw [if_neg he, hb]
       simp only [Bool.true_and]
       rw [if_pos (by simpa using hlen)]
+
+/-- **C09, Content-Length accounting.** Identity framing on a connection that accepts the writes: after any body
+phase the counter `bodyWritten` that `Write` compares with the declared Content-Length equals the number of
+payload bytes accepted so far — every byte is counted exactly once on every path (direct sends of 64 KiB and
+more, cache flushes, appends) — and therefore a further Write is refused with http.ErrContentLength ONLY IF
+accepted + |data| exceeds the length `contentLength()` reads from the header: a handler that stays within its
+declaration is never refused, so its body is never cut short. -/
+theorem c09_content_length_accounting (g : Cfg) (hg : g.failAt = 0) (hdr : Header) (sc : Nat) (st : Bytes)
+    (ops : List BOp) (hid : (body0 g hdr sc st).chunked = false) (d : Bytes) (hd : d ≠ []) :
+    (endState g hdr sc st ops).bodyWritten = (accepted g hdr sc st ops).flatten.length ∧
+    ((write g (endState g hdr sc st ops) d).2 = .errCL →
+      ∃ cl, verdict (endState g hdr sc st ops) = some cl ∧ cl > 0 ∧
+        (accepted g hdr sc st ops).flatten.length + d.length > cl) := by
+  have hbw0 : (body0 g hdr sc st).bodyWritten = 0 := by
+    show (checkChunked g (writeHeader200 (start hdr sc st))).bodyWritten = 0
+    rw [checkChunked_bw]
+    unfold writeHeader200
+    rw [writeHeader_bw]
+    rfl
+  have hp : Pre (body0 g hdr sc st) := pre_prelude g _
+  obtain ⟨a1, a2, a3⟩ := runB_account g hg ops (body0 g hdr sc st) hp hid
+  rw [hbw0, Nat.zero_add] at a1
+  refine ⟨a1, ?_⟩
+  intro he
+  change (write g (runB g (body0 g hdr sc st) ops).1 d).2 = .errCL at he
+  rw [write_unfold g _ d hd a2] at he
+  obtain ⟨cl, h1, h2, h3⟩ := writeBody_errCL g _ d (by exact a3) he
+  refine ⟨cl, ?_, h2, ?_⟩
+  · rw [← h1]
+    exact (verdict_eq (runB g (body0 g hdr sc st) ops).1 { (runB g (body0 g hdr sc st) ops).1 with hasBody := true } rfl rfl).symm
+  · rw [← a1]; exact h3
 
 /-! ### non-vacuity -/
 
